@@ -347,19 +347,38 @@ class ModelCompiler:
                             extracted_model.cells[column] = copy.deepcopy(
                                 model.cells[column])
 
-        terms_to_copy = []
-        for addr, cell in extracted_model.cells.items():
-            if cell.formula is not None:
-                for term in cell.formula.terms:
-                    if (term in extracted_model.cells
-                            and cell.formula != model.cells[addr].formula):
-                        cell.formula = copy.deepcopy(model.cells[addr].formula)
+        # Everything the copied cells depend on, directly or transitively:
+        # cells, the cells of ranges, and what defined names stand for.
+        todo = list(extracted_model.cells)
+        while todo:
+            cell = extracted_model.cells[todo.pop()]
+            if cell.formula is None:
+                continue
 
-                    elif term not in extracted_model.cells:
-                        terms_to_copy.append(term)
+            for term in cell.formula.terms:
+                name = term.rsplit('!', 1)[-1]
+                if name in model.defined_names:
+                    defn = extracted_model.defined_names[name] = \
+                        copy.deepcopy(model.defined_names[name])
+                    term = defn.address_str \
+                        if isinstance(defn, xltypes.XLRange) else defn.address
 
-        for term in terms_to_copy:
-            extracted_model.cells[term] = copy.deepcopy(model.cells[term])
+                if term in model.ranges:
+                    extracted_model.ranges[term] = copy.deepcopy(
+                        model.ranges[term])
+                    addresses = [
+                        address
+                        for row in model.ranges[term].cells
+                        for address in row]
+                else:
+                    addresses = [term]
+
+                for address in addresses:
+                    if (address not in extracted_model.cells
+                            and address in model.cells):
+                        extracted_model.cells[address] = copy.deepcopy(
+                            model.cells[address])
+                        todo.append(address)
 
         extracted_model.build_code()
 
